@@ -39,17 +39,18 @@ Record xcfg := {
   d_stale_changer : bool;
   d_prev_from_memory : bool;
   d_revert_drops_tombstone : bool;
+  d_cross_index_nonce : bool;
   x_fees : fcfg       (* transfer and fee flags, see Model/Fees.v *)
 }.
 
 Definition xcfg_fixed : xcfg :=
   {| d_raw_add := false; d_stub_promoted := false; d_ibtp_no_revert := false;
      d_failed_events := false; d_stale_changer := false;
-     d_prev_from_memory := false; d_revert_drops_tombstone := false; x_fees := fcfg_fixed |}.
+     d_prev_from_memory := false; d_revert_drops_tombstone := false; d_cross_index_nonce := false; x_fees := fcfg_fixed |}.
 Definition xcfg_faithful : xcfg :=
   {| d_raw_add := true; d_stub_promoted := true; d_ibtp_no_revert := true;
      d_failed_events := true; d_stale_changer := true;
-     d_prev_from_memory := true; d_revert_drops_tombstone := true; x_fees := fcfg_faithful |}.
+     d_prev_from_memory := true; d_revert_drops_tombstone := true; d_cross_index_nonce := true; x_fees := fcfg_faithful |}.
 
 Inductive undo :=
 | UStore (k : key) (prev : option N)
@@ -68,7 +69,7 @@ Record st := mkSt {
   loaded : N -> option N;   (* changer generation the in-block account object is bound to *)
   gen : N;                  (* generation of the ledger's current changer *)
   log : list undo;          (* undo log of the current changer, newest first *)
-  evs : list event;         (* event buffer of the current transaction *)
+  evs : list (N * event);   (* event buffer of the current transaction: (index the event was stamped with, event) *)
   warm : key -> bool;       (* the key's value is held by an in-memory tier (dirty / origin / account cache);
                                false = only on disk (cold cache after a restart, not yet read or written) *)
   base : key -> option N    (* the store at the start of the block (what a read falls through to when the
@@ -131,8 +132,8 @@ Definition peek (s : st) (k : key) : st :=
   let s1 := touch s (fst k) in
   mkSt (store s1) (bal s1) (nonce s1) (loaded s1) (gen s1) (log s1) (evs s1) (fun x => key_eqb x k || warm s1 x) (base s1).
 
-Definition postev (s : st) (e : event) : st :=
-  mkSt (store s) (bal s) (nonce s) (loaded s) (gen s) (log s) (evs s ++ [e]) (warm s) (base s).
+Definition postev (s : st) (i : N) (e : event) : st :=
+  mkSt (store s) (bal s) (nonce s) (loaded s) (gen s) (log s) (evs s ++ [(i, e)]) (warm s) (base s).
 
 Definition apply_undo (u : undo) (s : st) : st :=
   match u with
@@ -178,37 +179,50 @@ Inductive prog :=
 
 Inductive result := ROk | RErr (tana : bool).
 
-Fixpoint run (c : xcfg) (p : prog) (s : st) : st * result :=
+(** the context a contract body runs in ([vm.Context]): the position of the transaction in its
+    block ([GetTxIndex]; an interchain event is stamped with it by the contract that posts it, and
+    [applyTx] lists exactly that position in [Counter]), the nonce of the transaction, and the
+    depth of cross-contract calls.  Ledger, transaction, height and logger are shared by caller
+    and callee and are not represented.  [CrossInvoke] builds the callee's context from the
+    caller's; [d_cross_index_nonce] (mutation class, [false] for the code as it stands): it puts
+    the transaction's NONCE where the index belongs. *)
+Record callctx := { cx_index : N; cx_nonce : N; cx_depth : N }.
+
+Definition callee_ctx (c : xcfg) (cx : callctx) : callctx :=
+  {| cx_index := if d_cross_index_nonce c then cx_nonce cx else cx_index cx;
+     cx_nonce := cx_nonce cx; cx_depth := N.succ (cx_depth cx) |}.
+
+Fixpoint run (c : xcfg) (cx : callctx) (p : prog) (s : st) : st * result :=
   match p with
   | Done => (s, ROk)
   | Fail t => (s, RErr t)
   | Panic => (s, RErr false)
-  | Touch a k => run c k (touch s a)
-  | Peek kk k => run c k (peek s kk)
-  | JWrite kk v k => run c k (jstore c s kk (Some v))
-  | JDelete kk k => run c k (jstore c s kk None)
-  | RawAdd kk v k => run c k (rawadd c s kk v)
-  | SetBal a v k => run c k (setbal c s a v)
-  | PostEvent e k => run c k (postev s e)
+  | Touch a k => run c cx k (touch s a)
+  | Peek kk k => run c cx k (peek s kk)
+  | JWrite kk v k => run c cx k (jstore c s kk (Some v))
+  | JDelete kk k => run c cx k (jstore c s kk None)
+  | RawAdd kk v k => run c cx k (rawadd c s kk v)
+  | SetBal a v k => run c cx k (setbal c s a v)
+  | PostEvent e k => run c cx k (postev s (cx_index cx) e)
   | Cross _ inner kok kerr =>
-      let '(s1, r) := run c inner s in
-      match r with ROk => run c kok s1 | RErr _ => run c kerr s1 end
+      let '(s1, r) := run c (callee_ctx c cx) inner s in
+      match r with ROk => run c cx kok s1 | RErr _ => run c cx kerr s1 end
   end.
 
 (** the RawAdd writes actually executed, in order *)
-Fixpoint raws (c : xcfg) (p : prog) (s : st) : list (key * N) :=
+Fixpoint raws (c : xcfg) (cx : callctx) (p : prog) (s : st) : list (key * N) :=
   match p with
   | Done | Fail _ | Panic => []
-  | Touch a k => raws c k (touch s a)
-  | Peek kk k => raws c k (peek s kk)
-  | JWrite kk v k => raws c k (jstore c s kk (Some v))
-  | JDelete kk k => raws c k (jstore c s kk None)
-  | RawAdd kk v k => (kk, v) :: raws c k (rawadd c s kk v)
-  | SetBal a v k => raws c k (setbal c s a v)
-  | PostEvent e k => raws c k (postev s e)
+  | Touch a k => raws c cx k (touch s a)
+  | Peek kk k => raws c cx k (peek s kk)
+  | JWrite kk v k => raws c cx k (jstore c s kk (Some v))
+  | JDelete kk k => raws c cx k (jstore c s kk None)
+  | RawAdd kk v k => (kk, v) :: raws c cx k (rawadd c s kk v)
+  | SetBal a v k => raws c cx k (setbal c s a v)
+  | PostEvent e k => raws c cx k (postev s (cx_index cx) e)
   | Cross _ inner kok kerr =>
-      let '(s1, r) := run c inner s in
-      raws c inner s ++ match r with ROk => raws c kok s1 | RErr _ => raws c kerr s1 end
+      let '(s1, r) := run c (callee_ctx c cx) inner s in
+      raws c (callee_ctx c cx) inner s ++ match r with ROk => raws c cx kok s1 | RErr _ => raws c cx kerr s1 end
   end.
 
 (** keys a program can write (syntactic footprint, every branch) *)
@@ -288,7 +302,9 @@ Definition clear_frame (s : st) : st :=
   mkSt (store s) (bal s) (nonce s) (loaded s) (gen s) [] [] (warm s) (base s).
 
 (** body of the transaction including its own revert: state, result *)
-Definition tx_body (c : xcfg) (s0 : st) (t : tx) : st * result :=
+Definition top_ctx (idx : N) (t : tx) : callctx := {| cx_index := idx; cx_nonce := tx_nonce t; cx_depth := 0 |}.
+
+Definition tx_body (c : xcfg) (idx : N) (s0 : st) (t : tx) : st * result :=
   if tx_invalid t then (s0, RErr false)
   else match tx_kind t with
        | KBad => (s0, RErr false)
@@ -296,10 +312,10 @@ Definition tx_body (c : xcfg) (s0 : st) (t : tx) : st * result :=
            let '(s', r) := do_transfer c s0 (tx_from t) to (parse_amount amt) in
            (match r with ROk => s' | RErr _ => revert_all s' end, r)
        | KBvm body =>
-           let '(s', r) := run c (body s0) s0 in
+           let '(s', r) := run c (top_ctx idx t) (body s0) s0 in
            (match r with ROk => s' | RErr _ => revert_all s' end, r)
        | KIbtp body =>
-           let '(s', r) := run c (body s0) s0 in
+           let '(s', r) := run c (top_ctx idx t) (body s0) s0 in
            (match r with
             | ROk => s'
             | RErr _ => if d_ibtp_no_revert c then s' else revert_all s'
@@ -307,20 +323,23 @@ Definition tx_body (c : xcfg) (s0 : st) (t : tx) : st * result :=
        end.
 
 (** RawAdd writes executed by the transaction *)
-Definition tx_raws (c : xcfg) (s : st) (t : tx) : list (key * N) :=
+Definition tx_raws (c : xcfg) (idx : N) (s : st) (t : tx) : list (key * N) :=
   if tx_invalid t then []
   else match tx_kind t with
-       | KBvm body | KIbtp body => raws c (body (clear_frame s)) (clear_frame s)
+       | KBvm body | KIbtp body => raws c (top_ctx idx t) (body (clear_frame s)) (clear_frame s)
        | _ => []
        end.
 
 Definition counter_entry := (N * (N * bool * bool))%type.   (* chain, (tx index, valid, isBatch) *)
 
-Definition harvest (idx : N) (valid : bool) (l : list event) : list counter_entry :=
-  flat_map (fun ev => match ev with
-                      | EvInterchain ds => map (fun d : N * bool => (fst d, (idx, valid, snd d))) ds
-                      | EvOther => []
-                      end) l.
+(** [applyTx]: every destination of every interchain event of the transaction is listed with the
+    index THE EVENT CARRIES *)
+Definition harvest (valid : bool) (l : list (N * event)) : list counter_entry :=
+  flat_map (fun ie : N * event =>
+              match snd ie with
+              | EvInterchain ds => map (fun d : N * bool => (fst d, (fst ie, valid, snd d))) ds
+              | EvOther => []
+              end) l.
 
 (** the fee phase: against the balance left by the body; an unaffordable fee reverts the body *)
 Definition fee_phase (c : xcfg) (e : fenv) (s1 : st) (t : tx) (res : result) : st * bool :=
@@ -340,12 +359,12 @@ Definition fee_paid (e : fenv) (s1 : st) (t : tx) : bool :=
 Definition apply_tx (c : xcfg) (e : fenv) (idx : N) (s : st) (t : tx)
   : st * receipt * list counter_entry :=
   let s0 := clear_frame s in
-  let '(s1, res) := tx_body c s0 t in
+  let '(s1, res) := tx_body c idx s0 t in
   let '(s2, ok) := fee_phase c e s1 t res in
   let s3 := setnonce c s2 (tx_from t) (wrap64 (tx_nonce t + 1)) in
   let tana := negb ok && fee_paid e s1 t && tana_of res in
   let cnt := if negb ok && negb (d_failed_events c) then []
-             else harvest idx (negb tana) (evs s3) in
+             else harvest (negb tana) (evs s3) in
   (finalise s3, {| r_ok := ok; r_tana := tana |}, cnt).
 
 (** a block: the account objects of the previous block are dropped ([Clear]); [pre] are the
@@ -448,6 +467,7 @@ Record xcase := {
   xc_ocnt : list (N * (N * bool * bool));
   xc_other : N;
   xc_warm : option (list key);                (* None: every key warm; Some l: exactly the keys of l are warm (after a restart) *)
+  xc_posted : list (list N);                 (* per transaction: the destination chains of the interchain events its RECEIPT carries *)
   xc_meta : list (option N * option N)        (* metamorphic pairs: (observed in this run, observed in the run of the same
                                                  history without the FAILED transactions): final values of the tracked keys
                                                  and results of the reads *)
@@ -489,7 +509,8 @@ Fixpoint xmatch_idx (cs : list xcfg) (k : xcase) (i : N) : N :=
 (** property predicate on the implementation's own trace of one block:
     1. every changed tracked key lies in the footprint of a transaction whose receipt is SUCCESS,
        and nothing outside the tracked sets changed;
-    2. every Counter entry announced as valid belongs to a transaction whose receipt is SUCCESS;
+    2. every Counter entry announced as valid names a position of this block whose receipt is
+       SUCCESS and carries an interchain event for that destination chain;
     3. when every transaction of the block FAILED, balances and nonces are exactly the iterated
        fee/nonce specification. *)
 Definition succ_keys (k : xcase) : list key :=
@@ -505,7 +526,9 @@ Definition p_store_b (k : xcase) : bool :=
 
 Definition p_counter_b (k : xcase) : bool :=
   forallb (fun x : counter_entry =>
-             negb (snd (fst (snd x))) || nth (N.to_nat (fst (fst (snd x)))) (xc_recs k) false)
+             negb (snd (fst (snd x))) ||
+             (nth (N.to_nat (fst (fst (snd x)))) (xc_recs k) false &&
+              existsb (N.eqb (fst x)) (nth (N.to_nat (fst (fst (snd x)))) (xc_posted k) [])))
           (xc_ocnt k).
 
 Fixpoint spec_chain (e : fenv) (b : bals) (n : N -> N) (ts : list ctx) : bals * (N -> N) :=
@@ -543,7 +566,8 @@ Definition judge_frame (k : xcase) : verdict :=
 
 (** C14 judge: the conservation and non-negativity predicates of [Model/Fees.v] on the
     implementation's own balances first, then the correspondence with this model.
-    [grants]: genesis balance times the number of admin approvals with a SUCCESS receipt. *)
+    [grants]: genesis balance times the number of admin approvals with a SUCCESS receipt.
+    Code 300: more left the books of the block than the rounding loss of its transactions. *)
 Definition judge_native (grants : Z) (k : xcase) : verdict :=
   let dom := map fst (xc_obals k) in
   let b0 := of_alist (xc_bals k) in
@@ -551,4 +575,5 @@ Definition judge_native (grants : Z) (k : xcase) : verdict :=
   let i := xmatch_idx (xc_cfgs k) k 1%N in
   if negb (conserve_b dom b0 b1 grants) then V_propfalse (100 + i)%N
   else if negb (nonneg_b dom b1) && nonneg_b dom b0 then V_propfalse (200 + i)%N
+  else if negb (loss_b dom b0 b1 grants (length (admins (xc_env k))) (length (xc_txs k))) then V_propfalse (300 + i)%N
   else if (i =? 0)%N then V_mismatch 0 else (0%N, i).
